@@ -60,7 +60,13 @@ pub fn contents(idx: &searchlite_core::Index) -> anyhow::Result<Vec<(String, i64
         .and_then(|f| f.get("n"))
         .and_then(|v| v.as_i64())
         .unwrap_or(-1);
-      (h.doc_id.clone(), n)
+      // documents written by hist::doc carry body = "w{n % 3} common" and tag = "t": a stored
+      // field that does not belong to the version shown is reported as version -2
+      let body_ok = match h.fields.as_ref().and_then(|f| f.get("body")).and_then(|v| v.as_str()) {
+        Some(b) if b.starts_with('w') && b.ends_with(" common") => b == format!("w{} common", n.rem_euclid(3)),
+        _ => true,
+      };
+      (h.doc_id.clone(), if body_ok { n } else { -2 })
     })
     .collect();
   out.sort();
